@@ -19,7 +19,9 @@ variable {R : Type} [CommRing R]
 /-- **C37.T1** For every block size, every number of blocks, every LHS/weight length (the final
 block may be partial) and all scales: dequantise-then-multiply
 `Σ_k a_k · (scale_{k / bs} · (q_k − 8))` equals the factored per-block form
-`Σ_blocks scale · (Σ_{k∈block} a_k q_k − 8 · Σ_{k∈block} a_k)` that the kernels evaluate. -/
+`Σ_blocks scale · (Σ_{k∈block} a_k q_k − 8 · Σ_{k∈block} a_k)` (pure algebra; the per-block form is what
+the Int8 kernel's unsigned-LHS trick evaluates, the Float kernel dequantises element-wise — the
+kernels themselves are `floatKernelDot` / `int8KernelDot`, Props/C37Index.lean). -/
 theorem c37_factored_eq_dequantize (bs : Nat) (scales a q : List R) (h : a.length = q.length) :
     factoredBlocks bs scales a q = refDot bs scales a q :=
   (refDot_eq_factoredBlocks bs scales a q h).symm
@@ -250,7 +252,9 @@ theorem c37_dequantize_unpack_pack_all_pairs :
 
 /-! ### LHS quantisation (`quantize`) -/
 
-/-- **C37.T3b** For any nearest-integer rounding: the quantised value of an element of a block with
+/-- **C37.T3b** (only the range part is derived; the half-step part *is* the hypothesis `NearestQ`,
+which the harness checks on the real `quantize` through `verif::quantize_row`, ε-weakened for
+f32).  For any nearest-integer rounding: the quantised value of an element of a block with
 `absmax = A > 0` lies in `[−127, 127]` (no clamp is ever needed, the `as i8` cast is exact) and the
 de-quantisation error is at most half a scale step: `|q·A − 127·X| ≤ A/2`, i.e.
 `|q·scale − x| ≤ scale/2` with `scale = A/127`. -/
@@ -331,6 +335,47 @@ example : refDotChecked (R := Int) 4 [2, -3] [1, -2, 3, 4, 5, -6, 7] [0, 15, 8, 
     refDotChecked (R := Int) 4 [2] [1, -2, 3, 4, 5, -6, 7] [0, 15, 8, 7, 1, 9, 12] = none ∧
     factoredBlocksChecked (R := Int) 4 [2, -3, 5] [1, -2, 3, 4, 5, -6, 7] [0, 15, 8, 7, 1, 9, 12] = none := by
   decide
+
+/-! ### Summed error bound of the Int8 mode -/
+
+theorem dot3_abs_le : ∀ (e : List Int) (r : List Nat) (w q : List Int), HalfStep e r →
+    2 * (dot3 e w q).natAbs ≤ absBoundN r w q
+  | _, _, w, q, .nil => by simp [dot3]
+  | _, _, [], q, .cons _ _ => by simp [dot3_nil_w]
+  | _, _, _ :: _, [], .cons _ _ => by simp [dot3_nil_q]
+  | x :: xs, r :: rs, w :: ws, y :: ys, .cons h ht => by
+    have ih := dot3_abs_le xs rs ws ys ht
+    simp only [dot3, absBoundN]
+    have h1 := Int.natAbs_add_le (x * (w * (y - 8))) (dot3 xs ws ys)
+    have h2 : (x * (w * (y - 8))).natAbs = x.natAbs * (w * (y - 8)).natAbs := Int.natAbs_mul _ _
+    have h3 : 2 * x.natAbs * (w * (y - 8)).natAbs ≤ r * (w * (y - 8)).natAbs :=
+      Nat.mul_le_mul_right _ h
+    rw [h2] at h1
+    have e : 2 * (x.natAbs * (w * (y - 8)).natAbs) = 2 * x.natAbs * (w * (y - 8)).natAbs := by
+      rw [Nat.mul_assoc]
+    omega
+
+/-- **C37.T3c** Summed bound: if every element of the LHS is de-quantised to within half the row
+scale of its block (`HalfStep`, what `quantize` guarantees up to f32 rounding — checked on the real
+`quantize` by the harness), then the Int8 result differs from dequantize-then-multiply by at most
+`Σ_k (rs_{k/bs} / 2) · |cs_{k/bs} · (q_k − 8)|`.  Stated doubled, over integers in a common unit;
+`halfSteps` is the per-element list of row scales. -/
+theorem c37_int8_error_bound (u : Bool) (bs : Nat) (cs rs l q a : List Int) (halfSteps : List Nat)
+    (hl : l.length = q.length) (hc : cs.length = rs.length)
+    (ha : a.length = (scaleLhs bs rs l).length)
+    (hstep : HalfStep (List.zipWith (· - ·) a (scaleLhs bs rs l)) halfSteps) :
+    2 * (refDot bs cs a q - int8Blocks u bs cs rs l q).natAbs ≤
+      absBoundN halfSteps (expandScales bs cs) q := by
+  rw [c37_int8_error_is_quantization_error u bs cs rs l q a hl hc ha]
+  unfold refDot
+  exact dot3_abs_le _ _ _ _ hstep
+
+/-- Non-vacuity: block size 2 (toy), row scale 4, LHS `[9, -6]` quantised to `[2, -2]`
+(de-quantised `[8, -8]`, errors 1 and 2 ≤ 4/2). -/
+example : HalfStep (List.zipWith (· - ·) [9, -6] (scaleLhs 2 [4] [2, -2])) [4, 4] ∧
+    2 * (refDot 2 [3] [9, -6] [15, 0] - int8Blocks true 2 [3] [4] [2, -2] [15, 0]).natAbs ≤
+      absBoundN [4, 4] (expandScales 2 [3]) [15, 0] := by
+  refine ⟨.cons (by decide) (.cons (by decide) .nil), by decide⟩
 
 /-- The API cannot express a partial final block: `rows() = k_blocks · block_size`, and an LHS whose
 K differs is rejected with `KSizeMismatch` (model of the argument checks; tied by the harness). -/
